@@ -579,15 +579,16 @@ def guided_path(r, doc_, max_len=4, miss=18, mode="typed", labels=False, prim_on
             parts.append(Part(ct, value=vc, label=lab))
         else:
             ct = r.choice(["map" if is_map else "list", "mol"])
-            vc = anchored_value_cond(r, node[k], mode, 1, meaningful, jsonable)
+            kd = 1 if cond_depth < 3 else 2
+            vc = anchored_value_cond(r, node[k], mode, kd, meaningful, jsonable)
             mj = dict(meaningful=meaningful, jsonable=jsonable)
             if ct == "mol":
-                parts.append(Part(ct, key=tree(r, ("key",), mode, 1, null_p=30, **mj),
-                                  index=tree(r, ("index",), mode, 1, null_p=30, **mj), value=vc, label=lab))
+                parts.append(Part(ct, key=tree(r, ("key",), mode, kd, null_p=30, **mj),
+                                  index=tree(r, ("index",), mode, kd, null_p=30, **mj), value=vc, label=lab))
             elif is_map:
-                parts.append(Part(ct, key=tree(r, ("key",), mode, 1, null_p=20, **mj), value=vc, label=lab))
+                parts.append(Part(ct, key=tree(r, ("key",), mode, kd, null_p=20, **mj), value=vc, label=lab))
             else:
-                parts.append(Part(ct, index=tree(r, ("index",), mode, 1, null_p=20, **mj), value=vc, label=lab))
+                parts.append(Part(ct, index=tree(r, ("index",), mode, kd, null_p=20, **mj), value=vc, label=lab))
     return PathT(parts)
 
 
